@@ -279,8 +279,8 @@ def _db_clock(e) -> bool:
     return False
 
 
-def _r19_6(ctx, p):
-    ctx.rule("R19.6", "one clock: a heartbeat's age is the difference of two readings of the database clock - every stored heartbeat value and the "
+def _r19_7(ctx, p):
+    ctx.rule("R19.7", "one clock: a heartbeat's age is the difference of two readings of the database clock - every stored heartbeat value and the "
              "`now` of the stale query come from func.now()/func.current_timestamp(), never from a worker's own clock or time zone")
     f = p.lookup_method(p.cls(RDB), "_get_stale_trial_ids")
     defs = single_defs(f.node)
@@ -300,7 +300,7 @@ def _r19_6(ctx, p):
         n_src += len(asg)
         bad = [a for a in asg if not (_db_clock(a) or (isinstance(a, ast.Call) and isinstance(a.func, ast.Attribute) and a.func.attr == "replace"
                                                     and norm(a.func.value) == v))]
-        ctx.check(bool(asg) and not bad, "R19.6", f.short, "now-is-the-database-clock",
+        ctx.check(bool(asg) and not bad, "R19.7", f.short, "now-is-the-database-clock",
                   message=f"the stale query measures age from `{norm(bad[0]) if bad else '?'}`: heartbeats are stamped by the database server, so a worker whose "
                           f"clock or time zone differs from the server's sees fresh heartbeats as stale (live trials are failed and retried) or stale ones as fresh",
                   how="every assignment of the minuend is session.execute(func.now()).scalar() (or its tz-stripped self)")
@@ -309,19 +309,19 @@ def _r19_6(ctx, p):
                    and "heartbeat" in norm(c.args[0]) and "grace" in norm(c.args[0])]
         for flt in filters:
             n_src += 1
-            ctx.check(_db_clock(resolve(flt, defs, depth=3)), "R19.6", f.short, "now-is-the-database-clock",
+            ctx.check(_db_clock(resolve(flt, defs, depth=3)), "R19.7", f.short, "now-is-the-database-clock",
                       message=f"the SQL age condition `{norm(flt)[:80]}` does not read the database clock", how="func.now() inside the filter")
     # (b) stored heartbeat values
     col = None
     hb = p.cls("optuna.storages._rdb.models.TrialHeartbeatModel")
-    ctx.require(hb is not None, "R19.6: TrialHeartbeatModel vanished")
+    ctx.require(hb is not None, "R19.7: TrialHeartbeatModel vanished")
     for st in hb.node.body:
         if isinstance(st, ast.Assign) and any(isinstance(t, ast.Name) and t.id == "heartbeat" for t in st.targets):
             col = st.value
-    ctx.require(isinstance(col, ast.Call), "R19.6: heartbeat column definition vanished")
+    ctx.require(isinstance(col, ast.Call), "R19.7: heartbeat column definition vanished")
     dflt = next((k.value for k in col.keywords if k.arg in ("default", "server_default")), None)
     n_src += 1
-    ctx.check(dflt is not None and _db_clock(dflt), "R19.6", "optuna/storages/_rdb/models.py::TrialHeartbeatModel", "first-beat-from-database-clock",
+    ctx.check(dflt is not None and _db_clock(dflt), "R19.7", "optuna/storages/_rdb/models.py::TrialHeartbeatModel", "first-beat-from-database-clock",
               message=f"the heartbeat column's default is `{norm(dflt) if dflt is not None else None}`, not the database's current timestamp",
               how="default=func.current_timestamp()")
     for fn in p.iter_funcs(("optuna.storages._rdb",)):
@@ -336,15 +336,15 @@ def _r19_6(ctx, p):
                 continue
             n_src += 1
             fdefs = fdefs if fdefs is not None else single_defs(fn.node)
-            ctx.check(_db_clock(resolve(val, fdefs, depth=3)), "R19.6", fn.short, "beat-stamped-by-database-clock",
+            ctx.check(_db_clock(resolve(val, fdefs, depth=3)), "R19.7", fn.short, "beat-stamped-by-database-clock",
                       message=f"{fn.name} stores the heartbeat `{norm(val)[:60]}`: a time read on the worker, while the stale query compares against the database "
                               f"server's clock - with a clock or time-zone offset between the two a beating trial is failed and retried by the next sweep "
                               f"(or a dead one is never recovered)", how="stored value is session.execute(func.now()).scalar()", where=where(fn, x))
-    ctx.floor("R19.6", "clock_sources", n_src, 4)
+    ctx.floor("R19.7", "clock_sources", n_src, 4)
 
 
 def _c19_tail(ctx, p):
-    _r19_6(ctx, p)
+    _r19_7(ctx, p)
     # ------------------------------------------------------------ R19.5 retry construction
     ctx.rule("R19.5", "RetryFailedTrialCallback: history appended before the max_retry test; add_trial dominated by it; "
              "WAITING trial built from the failed trial unchanged")
